@@ -31,12 +31,11 @@ def F(t, qsecs, tsecs, qworkers=2, tworkers=4):
     return dict(t=t, quick=dict(workers=qworkers, secs=qsecs), thorough=dict(workers=tworkers, secs=tsecs))
 
 
-# ---------------------------------------------------------------------------
-rc_target("c06_pq", flavour="asan-dbg")
-plan("C06", [T("c06_pq", 5000, 60000)], min_nt=200,
-     rule="stateful op sequences against a reference multiset + handle table",
-     assumptions=["out-of-memory is fatal by design and not generated",
-                  "a handle is in at most one queue at a time (caller obligation)"])
-
 NOT_APPLICABLE = {}
 EXTRA_ENGINES = []
+
+# one file per property under plans/ registers its targets and its plan
+import glob as _glob
+import os as _os
+for _f in sorted(_glob.glob(_os.path.join(_os.path.dirname(_os.path.abspath(__file__)), "plans", "*.py"))):
+    exec(compile(open(_f).read(), _f, "exec"))
